@@ -71,7 +71,7 @@ func faultRun(t *rapid.T) {
 }
 
 func faultProbeRun(t *rapid.T) {
-	p := genProgram(t, genOpts{probes: true, noise: true, probePct: 35, mapRegions: true})
+	p := genProgram(t, genOpts{probes: true, noise: true, splitTags: true, probePct: 35, mapRegions: true})
 	mp := simrt.MapPolicy(uni(t, "maporder", 4))
 	mseed := rapid.Uint64().Draw(t, "mapseed")
 	count("maporder_"+mp.String(), 1)
@@ -246,6 +246,15 @@ func faultProbeRun(t *rapid.T) {
 			if err == nil {
 				continue
 			}
+			if fk != fkWrongKind && uni(t, "repeat", 4) == 0 {
+				k, fk := k, fk
+				repeatFailing(t, p, func() *Runtime {
+					r := newRuntime(p, true)
+					r.FailAt, r.Kind = k, fk
+					setOrder(mp, mseed)
+					return r
+				}, fkName+":"+site.Class, det(ex))
+			}
 
 			// ---- C15
 			if !propEnabled("C15") {
@@ -332,7 +341,7 @@ var strictGen = envInt("VERIF_STRICT_GEN", 0) != 0
 // as a condition or as an operand of ! == != && || counts as nil; anywhere
 // else it must fail the render.
 func tolerantRun(t *rapid.T) {
-	p := genProgram(t, genOpts{tolerant: true, noise: true})
+	p := genProgram(t, genOpts{tolerant: true, noise: true, splitTags: true})
 	mp := simrt.MapPolicy(uni(t, "maporder", 4))
 	mseed := rapid.Uint64().Draw(t, "mapseed")
 	if len(p.Tolerant) == 0 {
@@ -462,7 +471,7 @@ func naturalFailRun(t *rapid.T) {
 		nestedNaturalFailRun(t)
 		return
 	}
-	p := genProgram(t, genOpts{failing: true, noise: true})
+	p := genProgram(t, genOpts{failing: true, noise: true, splitTags: true})
 	if p.Failing == "" {
 		return
 	}
@@ -489,6 +498,7 @@ func naturalFailRun(t *rapid.T) {
 	if out != "" {
 		violate(t, "C05", "failed-render-returns-empty-output", "c05:partial-output:natural:"+p.Failing, det)
 	}
+	repeatFailing(t, p, func() *Runtime { setOrder(mp, mseed); return newRuntime(p, true) }, "natural:"+p.Failing, det)
 	if propEnabled("C15") {
 		checkLine(t, p, err, p.FailLine, "natural:"+p.Failing, det, func(main string) (string, error) {
 			sp := *p
@@ -497,6 +507,50 @@ func naturalFailRun(t *rapid.T) {
 			setOrder(mp, mseed)
 			return r.render()
 		})
+	}
+}
+
+// repeatFailing — C05 for the 2nd..nth execution of ONE parsed template and for a Clone of it: a failure must
+// fail again every time (a result, or "this already failed", remembered in the template or anywhere else must
+// not turn a later execution into a success). mk builds a fresh runtime carrying the same fault plan.
+func repeatFailing(t *rapid.T, p *Program, mk func() *Runtime, class string, det func() map[string]interface{}) {
+	var tm *plush.Template
+	var perr error
+	if herr := underSim(func() { tm, perr = plush.NewTemplate(p.Main) }); herr != nil || perr != nil {
+		return
+	}
+	n := 2 + uni(t, "repeats", 3)
+	for i := 0; i < n; i++ {
+		rt := mk()
+		x := tm
+		how := fmt.Sprintf("execution %d of one parsed template", i+1)
+		if i == n-1 {
+			x = tm.Clone()
+			how = fmt.Sprintf("execution of a Clone after %d executions of the template", i)
+		}
+		out, err := rt.execOn(x)
+		count("fault_repeat_execs", 1)
+		d := func() map[string]interface{} {
+			m := det()
+			m["how"] = how
+			m["output"], m["error"] = out, fmt.Sprint(err)
+			return m
+		}
+		if rt.FailAt > 0 && !rt.Fired {
+			return // the plan's invocation was not reached (execution differs: C13's subject)
+		}
+		if err == nil {
+			violate(t, "C05", "failing-operation-fails-every-execution", "c05:repeat-swallowed:"+class, d)
+			return
+		}
+		if rt.FailAt > 0 && rt.Kind != fkWrongKind && !errors.Is(err, rt.Fault) {
+			violate(t, "C05", "error-wraps-original", "c05:repeat-not-wrapped:"+class, d)
+			return
+		}
+		if out != "" {
+			violate(t, "C05", "failed-render-returns-empty-output", "c05:repeat-partial-output:"+class, d)
+			return
+		}
 	}
 }
 
@@ -599,7 +653,7 @@ func brokenTagRun(t *rapid.T) {
 // marker probe evaluated in the same tag right before it tells whether the
 // operation was reached; only then is anything asserted.
 func nestedNaturalFailRun(t *rapid.T) {
-	p := genProgram(t, genOpts{probes: true, probePct: 5, failNested: true, noise: true})
+	p := genProgram(t, genOpts{probes: true, probePct: 5, failNested: true, noise: true, splitTags: true})
 	if p.FailMarker == nil {
 		return
 	}
@@ -641,6 +695,7 @@ func nestedNaturalFailRun(t *rapid.T) {
 	if out != "" {
 		violate(t, "C05", "failed-render-returns-empty-output", "c05:partial-output:natural-nested:"+p.Failing, det)
 	}
+	repeatFailing(t, p, func() *Runtime { setOrder(mp, mseed); return newRuntime(p, true) }, "natural-nested:"+p.Failing, det)
 	if !propEnabled("C15") || site.ElseIf || site.Ambig || p.Features["user_fn_call_cross_template"] > 0 {
 		return
 	}
